@@ -77,7 +77,7 @@ var (
 		}
 		return
 	}()
-	stringVals = []string{"s:", "s:abc", "s:λ", "s:aλ", "s:日本語", "s:λλa"}
+	stringVals = []string{"s:", "s:abc", "s:λ", "s:aλ", "s:日本語", "s:λλa", "s:12", "s: 99999999999999999999 ", "s:-7 ", "s:1/2"}
 	listVals   = []string{"nil", "e:(list 1 2 3)", "e:(list #\\a #\\b #\\a)", "alist", "dotted"}
 	vectorVals = []string{"e:(vector 1 2 3)", "vec0", "bitv", "octets", "fpvec", "fpover", "fpshrunk", "adjarr"}
 	typeValues = map[string][]string{
@@ -129,6 +129,23 @@ func init() {
 
 // valuesOf gives the value set of a documented type: the union over its known alternatives; nil when no
 // alternative is known.
+// typeSpecs: values for parameters that take a type specifier (they are documented as symbols): names of types and
+// compound specifiers, well formed and not
+var typeSpecs = []string{"e:'list", "e:'vector", "e:'string", "e:'octets", "e:'bit-vector", "e:'fixnum", "e:'integer", "e:'float", "e:'character", "e:'array", "e:'t", "nil",
+	"e:'(vector t)", "e:'(vector * 0)", "e:'(vector character 2)", "e:'(array t (2))", "e:'(integer 0 5)", "e:'(or fixnum string)", "e:'(member a b)", "e:'(satisfies evenp)", "e:'(mod 4)", "e:'(vector)", "e:'(nope 1)"}
+
+// valuesFor: the value set of a parameter, by its name where the documented type says too little, else by its type.
+func valuesFor(p param) []string {
+	switch p.name {
+	case "type", "result-type", "element-type", "type-1", "type-2", "output-type-spec", "typespec", "type-specifier":
+		return typeSpecs
+	}
+	if strings.Contains(p.typ, "type specifier") {
+		return typeSpecs
+	}
+	return valuesOf(p.typ)
+}
+
 func valuesOf(typ string) (vals []string) {
 	seen := map[string]bool{}
 	for _, alt := range strings.Split(typ, "|") {
@@ -168,13 +185,13 @@ func typical(p param) string {
 	case strings.Contains(p.name, "predicate") || p.name == "test" || p.name == "function":
 		return "e:(lambda (&rest r) (car r))"
 	case isSeqLike(p):
-		if vs := valuesOf(p.typ); len(vs) > 3 {
+		if vs := valuesFor(p); len(vs) > 3 {
 			return vs[3] // "aλ" for strings
 		} else if len(vs) > 0 {
 			return vs[len(vs)-1]
 		}
 	}
-	if vs := valuesOf(p.typ); len(vs) > 0 {
+	if vs := valuesFor(p); len(vs) > 0 {
 		return vs[0]
 	}
 	return "nil"
@@ -274,7 +291,7 @@ func gridCases(fn string) (cases []Case) {
 	for _, si := range seqs {
 		svals := []string{""}
 		if si >= 0 {
-			svals = valuesOf(ps[si].typ)
+			svals = valuesFor(ps[si])
 		}
 		for _, sv := range svals {
 			for _, g := range groups {
@@ -323,12 +340,12 @@ func pairCases(fn string, ps []param, _ []int) (cases []Case) {
 			if p.kind != 0 {
 				return nil
 			}
-			if sets[i] = valuesOf(p.typ); len(sets[i]) == 0 {
+			if sets[i] = valuesFor(p); len(sets[i]) == 0 {
 				return nil
 			}
 			n *= len(sets[i])
 		}
-		if n > 200 {
+		if n > 300 {
 			return nil
 		}
 		for _, va := range sets[0] {
@@ -348,8 +365,8 @@ func pairCases(fn string, ps []param, _ []int) (cases []Case) {
 		return cases
 	}
 	a, b := seqs[0], seqs[1]
-	for _, va := range valuesOf(ps[a].typ) {
-		for _, vb := range valuesOf(ps[b].typ) {
+	for _, va := range valuesFor(ps[a]) {
+		for _, vb := range valuesFor(ps[b]) {
 			if c := (Case{Fn: fn, Mode: "q", Args: buildTyped(ps, map[int]string{a: va, b: vb})}); !notDriven(c) {
 				cases = append(cases, c)
 			}
@@ -388,7 +405,7 @@ func genTyped(fns []FuncEntry) func(rt *rapid.T) Case {
 			if p.kind != 0 && rapid.IntRange(0, 2).Draw(rt, "given") == 0 {
 				continue
 			}
-			vs := valuesOf(p.typ)
+			vs := valuesFor(p)
 			if isBound(p) {
 				vs = boundValues
 			}
